@@ -90,12 +90,14 @@ static inline void myth_freelist_init(myth_freelist_t * fl) {
 static inline void myth_freelist_push(myth_freelist_t * fl, void * h_) {
   myth_freelist_cell_t * h = h_;
   h->next = fl->head;
+  MYTH_VERIF_POINT(MYTH_VS_FL_PUSH);
   fl->head = h;
 }
 
 static inline void * myth_freelist_pop(myth_freelist_t * fl) {
   myth_freelist_cell_t * h = fl->head;
   if (h) {
+    MYTH_VERIF_POINT(MYTH_VS_FL_POP);
     fl->head = h->next;
     return (void *)h;
   } else {
